@@ -5,6 +5,7 @@ mod refint;
 mod rulegen;
 mod bfs;
 mod formats;
+mod cli;
 mod props;
 
 fn main() {
@@ -14,6 +15,7 @@ fn main() {
     let cmd = args.get(1).map(|s| s.as_str()).unwrap_or("");
     let code = match cmd {
         "C01" => props::c01::run(),
+        "C19" => props::c19::run(),
         "c01-worker" => props::c01::worker(&args[2..]),
         "C02" => props::c02::run(),
         "C03" => props::c03::run(),
@@ -66,6 +68,7 @@ fn replay(path: &str) -> i32 {
         "C16" => props::c16::replay(&v["case"]),
         "C17" => props::c17::replay(&v["case"]),
         "C18" => props::c18::replay(&v["case"]),
+        "C19" => props::c19::replay(&v["case"]),
         _ => Err(format!("no replay for {pid}")),
     };
     match res {
